@@ -30,7 +30,7 @@ const HEADERS: [&str; 12] = [
 ];
 /// handler durations in ms; u64::MAX = never completes
 const DURATIONS: [u64; 5] = [0, 30, 120, 1000, u64::MAX];
-const DEFAULTS: [Option<u64>; 3] = [None, Some(50), Some(200)];
+const DEFAULTS: [Option<u64>; 4] = [None, Some(0), Some(50), Some(200)];
 const HORIZON_MS: u64 = 20_000;
 const NS_PER_MS: u128 = 1_000_000;
 
@@ -340,7 +340,7 @@ impl Check for C11 {
         CheckMeta {
             property: "C11",
             level: "exploration",
-            rule: "full cross product of (callee inbound default, caller outbound default) in {none,50ms,200ms}^2, header in a 12-value menu (absent, 0, 1, 60ms, 100ms, 10s, u64::MAX, overflow, non-numeric...), handler duration in {0,30ms,120ms,1s,never}, latency {2,5}ms, with/without a user outbound layer (which in a third variant stamps the timeout header itself, below the caller's own timeout layer, so that only the serving side can enforce it), via Network::rpc and Peer::rpc; thorough also crosses the settings of the other two ends; each case is one whole-system execution in virtual time compared with the closed-form min() reference; distinct = distinct (expected outcome kind, handler fate)".into(),
+            rule: "full cross product of (callee inbound default, caller outbound default) in {none,0,50ms,200ms}^2, header in a 12-value menu (absent, 0, 1, 60ms, 100ms, 10s, u64::MAX, overflow, non-numeric...), handler duration in {0,30ms,120ms,1s,never}, latency {2,5}ms, with/without a user outbound layer (which in a third variant stamps the timeout header itself, below the caller's own timeout layer, so that only the serving side can enforce it), via Network::rpc and Peer::rpc; thorough also crosses the settings of the other two ends; each case is one whole-system execution in virtual time compared with the closed-form min() reference; distinct = distinct (expected outcome kind, handler fate)".into(),
             assumptions: vec![
                 "virtual time: completion instants are compared to the millisecond; cases whose two candidate deadlines lie within 2 ms of each other are excluded as ties and counted".into(),
             ],
